@@ -896,7 +896,8 @@ func exprToString(expr ast.Expr) string {
 		case ast.BoolLiteral:
 			return fmt.Sprintf("bool:%v", lit.Value)
 		case ast.StringLiteral:
-			return fmt.Sprintf("str:%s", lit.Value)
+			// quoted: "a str:b" next to "c" must not read like "a" next to "b str:c"
+			return "str:" + strconv.Quote(lit.Value)
 		}
 	}
 	return ""
